@@ -1,6 +1,7 @@
 import Tmv.Drv.Core
 import Tmv.Model.MempoolV0
 import Tmv.Model.MempoolV1
+import Tmv.Model.MempoolV0Async
 /-! Line-protocol driver for C12: the v0 and v1 mempool models. After every op the observation
 `n=<Size> b=<SizeBytes> all=<ReapMaxTxs(-1)>` is appended. -/
 namespace Tmv.Drv.C12
@@ -8,7 +9,8 @@ open Tmv Tmv.Mempool
 
 inductive Pool
   | v0 (s : V0.State)
-  | v1 (s : V1.State)
+  | v1 (s : V1.State) (d : Nat)   -- d = TTLDuration in logical time units (cfg ttldur=, 0 = off)
+  | a0 (a : V0.AState)      -- v0 over the asynchronous FIFO client (cfg async=1)
 
 def lowerHex (s : String) : Bool :=
   s = "-" ∨ s = "." ∨ (s.length > 0 ∧ s.length % 2 = 0 ∧
@@ -38,7 +40,13 @@ def showTxs (l : List Bytes) : String :=
 
 def obs : Pool → String
   | .v0 s => s!" | n={s.txs.length} b={s.txsBytes} all={showTxs (V0.reapMaxTxs s (-1))}"
-  | .v1 s => s!" | n={s.txs.length} b={s.txsBytes} all={showTxs (V1.reapMaxTxs s (-1))}"
+  | .v1 s _ => s!" | n={s.txs.length} b={s.txsBytes} all={showTxs (V1.reapMaxTxs s (-1))}"
+  | .a0 a => s!" | n={a.s.txs.length} b={a.s.txsBytes} all={showTxs (V0.reapMaxTxs a.s (-1))} q={a.queue.length}"
+
+/-- recorded peer ids of the tx just submitted (sorted; "-" = not in the pool) -/
+def showPeers : Option (List Nat) → String
+  | none => "-"
+  | some l => ",".intercalate ((V1.sortBy (fun a b => decide (a < b)) l).map toString)
 
 def bool01 (i : Int) : Option Bool := if i = 0 then some false else if i = 1 then some true else none
 
@@ -55,12 +63,24 @@ def parseCfg (toks : List String) : Option Pool := do
   let ttl ← getInt toks "ttl"
   let ttld ← (← getInt toks "ttld") |> bool01
   let h ← getInt toks "h"
-  if ver = 0 then
+  let async ← match kv toks "async" with
+    | none => some false
+    | some "0" => some false
+    | some "1" => if ver = 0 then some true else none
+    | some _ => none
+  if ver = 0 ∧ async then
+    pure (.a0 (V0.ainit { size := size, maxTxsBytes := maxb, maxTxBytes := maxtx, cacheSize := cache,
+                          keepInvalid := keep, recheck := rc } h))
+  else if ver = 0 then
     pure (.v0 (V0.init { size := size, maxTxsBytes := maxb, maxTxBytes := maxtx, cacheSize := cache,
                          keepInvalid := keep, recheck := rc } h))
   else if ver = 1 then
+    let d ← match kv toks "ttldur" with
+      | none => some 0
+      | some x => x.toNat?
     pure (.v1 (V1.init { size := size, maxTxsBytes := maxb, maxTxBytes := maxtx, cacheSize := cache,
-                         keepInvalid := keep, recheck := rc, ttlNumBlocks := ttl, ttlDuration := ttld } h))
+                         keepInvalid := keep, recheck := rc, ttlNumBlocks := ttl,
+                         ttlDuration := ttld || decide (d > 0) } h) d)
   else none
 
 def parseCode (s : String) : Option Nat := do
@@ -122,6 +142,28 @@ def step (st : Option Pool) (toks : List String) : Option Pool × String :=
     match parseCfg rest with
     | some p => (some p, "ok" ++ obs p)
     | none => (st, "bad-op")
+  | "hazard" :: rest =>
+    -- Flush / RemoveTxByKey while recheck answers are in flight: outside the modelled discipline;
+    -- the property's answer is that the rejected entry is gone and the counters fit ("hazard-ok")
+    match kv rest "kind" with
+    | some "flush" =>
+      -- known finding v0.async.flush-during-recheck.panic: the cursor dangles on a removed
+      -- element, not expressible in the model; the recorded behaviour of the code is answered
+      (st, "hazard-fail panic")
+    | some "remove" =>
+      let a := V0.hazardRemove
+      (st, if a.panicked then "hazard-fail panic"
+           else if [0xc1] ∈ V0.keys a.s then "hazard-fail rejected-tx-kept"
+           else "hazard-ok")
+    | some "tie" =>
+      -- known finding v1.reap.order-undefined-on-equal-timestamps: the comparator of
+      -- allEntriesSorted does not order two entries with equal priority and timestamp
+      let a : V1.WTx := { tx := [0xa1], height := 1, seq := 0, gas := 0, prio := 1, sender := "" }
+      let b : V1.WTx := { tx := [0xb1], height := 1, seq := 0, gas := 0, prio := 1, sender := "" }
+      (st, if V1.reapBefore a b = false ∧ V1.reapBefore b a = false then "hazard-fail order-varies"
+           else "hazard-ok")
+    | some "none" => (st, "hazard-ok")
+    | _ => (st, "bad-op")
   | "stress" :: rest =>
     -- concurrent stress run of the implementation: the model's answer is that every state
     -- invariant of Props.C12 holds throughout ("stress-ok")
@@ -141,12 +183,28 @@ def step (st : Option Pool) (toks : List String) : Option Pool × String :=
           if peer < 0 ∨ peer > 65535 then (st, "bad-op") else
           match p with
           | .v0 s =>
-            let r := V0.checkTx s tx v
-            (some (.v0 r.1), showV0Res r.2 ++ obs (.v0 r.1))
-          | .v1 s =>
-            let r := V1.checkTx s tx v
-            (some (.v1 r.1), showV1Res r.2 ++ obs (.v1 r.1))
+            let r := V0.checkTxFrom s tx v peer.toNat
+            let ps := (r.1.txs.find? (fun e => e.tx = tx)).map (·.senders)
+            (some (.v0 r.1), showV0Res r.2 ++ " p=" ++ showPeers ps ++ obs (.v0 r.1))
+          | .v1 s d =>
+            -- `now=<t>`: the arrival timestamp of this submission (logical clock)
+            let s := match (kv rest "now").bind String.toNat? with
+              | some t => { s with clock := t }
+              | none => s
+            let r := V1.checkTxFrom s tx v peer.toNat
+            let ps := (r.1.txs.find? (fun e => e.tx = tx)).map (·.peers)
+            (some (.v1 r.1 d), showV1Res r.2 ++ " p=" ++ showPeers ps ++ obs (.v1 r.1 d))
+          | .a0 a =>
+            let r := V0.asend a tx v
+            (some (.a0 r.1), showV0Res r.2 ++ obs (.a0 r.1))
         | _, _, _ => (st, "bad-op")
+      | "deliver" =>
+        match p, getInt rest "n" with
+        | .a0 a, some n =>
+          if n < 0 ∨ n > 1000 then (st, "bad-op") else
+          let a' := (List.range n.toNat).foldl (fun b _ => V0.adeliver b) a
+          (some (.a0 a'), (if a'.panicked then "panic" else "ok") ++ obs (.a0 a'))
+        | _, _ => (st, "bad-op")
       | "ccheck" =>
         -- K concurrent submissions of fresh, equally long txs with one verdict: every
         -- linearisation admits the same number; the model runs them in the listed order
@@ -160,9 +218,10 @@ def step (st : Option Pool) (toks : List String) : Option Pool × String :=
             | .v0 s =>
               let s' := txs.foldl (fun a tx => (V0.checkTx a tx v).1) s
               (some (.v0 s'), s!"admitted={(s'.txs.length : Int) - s.txs.length} | n={s'.txs.length} b={s'.txsBytes} dup=0 reap={(V0.reapMaxTxs s' (-1)).length}")
-            | .v1 s =>
+            | .a0 _ => (st, "bad-op")
+            | .v1 s d =>
               let s' := txs.foldl (fun a tx => (V1.checkTx a tx v).1) s
-              (some (.v1 s'), s!"admitted={(s'.txs.length : Int) - s.txs.length} | n={s'.txs.length} b={s'.txsBytes} dup=0 reap={(V1.reapMaxTxs s' (-1)).length}")
+              (some (.v1 s' d), s!"admitted={(s'.txs.length : Int) - s.txs.length} | n={s'.txs.length} b={s'.txsBytes} dup=0 reap={(V1.reapMaxTxs s' (-1)).length}")
         | _, _ => (st, "bad-op")
       | "update" =>
         match getInt rest "h", parseBlock rest, (kv rest "rv").bind parseRV,
@@ -172,21 +231,32 @@ def step (st : Option Pool) (toks : List String) : Option Pool × String :=
           | .v0 s =>
             let s' := V0.update s h block pre post (rvFun rv)
             (some (.v0 s'), "ok" ++ obs (.v0 s'))
-          | .v1 s =>
-            let s' := V1.update s h block pre post (rvFun rv) (fun _ => true)
-            (some (.v1 s'), "ok" ++ obs (.v1 s'))
+          | .v1 s d =>
+            -- TTLDuration: with ttldur=d>0 and `now=<t>` an entry expires when t − timestamp > d;
+            -- the legacy ttld=1 (1ns) expires everything
+            let expired : V1.WTx → Bool := match d, (kv rest "now").bind String.toNat? with
+              | 0, _ => fun _ => true
+              | _, none => fun _ => false
+              | d, some t => fun w => decide (t - w.seq > d)
+            let s' := V1.update s h block pre post (rvFun rv) expired
+            (some (.v1 s' d), "ok" ++ obs (.v1 s' d))
+          | .a0 a =>
+            let a' := V0.aupdate a h block pre post (rvFun rv)
+            (some (.a0 a'), (if a'.panicked then "panic" else "ok") ++ obs (.a0 a'))
         | _, _, _, _, _ => (st, "bad-op")
       | "flush" =>
         if rest ≠ [] then (st, "bad-op") else
         match p with
         | .v0 s => let p' := Pool.v0 (V0.flush s); (some p', "ok" ++ obs p')
-        | .v1 s => let p' := Pool.v1 (V1.flush s); (some p', "ok" ++ obs p')
+        | .v1 s d => let p' := Pool.v1 (V1.flush s) d; (some p', "ok" ++ obs p')
+        | .a0 _ => (st, "bad-op")
       | "reap" =>
         match getInt rest "bytes", getInt rest "gas" with
         | some b, some g =>
           match p with
           | .v0 s => (st, showTxs (V0.reapMaxBytesMaxGas s b g) ++ obs p)
-          | .v1 s => (st, showTxs (V1.reapMaxBytesMaxGas s b g) ++ obs p)
+          | .v1 s d => (st, showTxs (V1.reapMaxBytesMaxGas s b g) ++ obs p)
+          | .a0 a => (st, showTxs (V0.reapMaxBytesMaxGas a.s b g) ++ obs p)
         | _, _ => (st, "bad-op")
       | "reapn" =>
         match getInt rest "n" with
@@ -194,7 +264,8 @@ def step (st : Option Pool) (toks : List String) : Option Pool × String :=
           if n > 1073741824 ∨ n < -1073741824 then (st, "bad-op") else
           match p with
           | .v0 s => (st, showTxs (V0.reapMaxTxs s n) ++ obs p)
-          | .v1 s => (st, showTxs (V1.reapMaxTxs s n) ++ obs p)
+          | .v1 s d => (st, showTxs (V1.reapMaxTxs s n) ++ obs p)
+          | .a0 a => (st, showTxs (V0.reapMaxTxs a.s n) ++ obs p)
         | none => (st, "bad-op")
       | _ => (st, "bad-op")
   | [] => (st, "bad-op")
